@@ -373,7 +373,6 @@ class LogicalType(type):  # noqa
                         e = exc.ParseError(type=con, value=value, origin_exc=e)
                     context.handle_error(e)
                     break
-            return value
 
         elif cls.combinator == "|":
             # Union type
